@@ -161,7 +161,8 @@ class Payload(tuple):
     __slots__ = ()
 
     def __bool__(self):
-        return (self[0] + self[-1]) % 2 == 1
+        first = self[0] if isinstance(self[0], int) else 0
+        return (first + self[-1]) % 2 == 1
 
 
 async def spin(n):
